@@ -89,22 +89,25 @@ theorem not_boundary_inside (a : List Char) (c : Char) (b : List Char) (j : Nat)
 /-! ### slices -/
 
 theorem extract_split (a b c : List Char) :
-    ((src (a ++ b ++ c)).extract (enc a).length (enc (a ++ b)).length).toList = enc b := by
+    ((src (a ++ (b ++ c))).extract (enc a).length (enc (a ++ b)).length).toList = enc b := by
   simp [src, List.extract_eq_take_drop, enc_append]
 
-/-- `&input[start..ptr]` between two split points is the encoding of the characters in between -/
+/-- `input.get(start..ptr)` between two split points is the encoding of the characters in between -/
 theorem strGet_split (a b c : List Char) :
-    strGet (src (a ++ b ++ c)) (enc a).length (enc (a ++ b)).length = some (enc b) := by
+    strGet (src (a ++ (b ++ c))) (enc a).length (enc (a ++ b)).length = some (enc b) := by
   unfold strGet
-  have h1 : isCharBoundary (src (a ++ b ++ c)) (enc a).length = true := by
-    rw [List.append_assoc]; exact boundary_split a (b ++ c)
-  have h2 : isCharBoundary (src (a ++ b ++ c)) (enc (a ++ b)).length = true := boundary_split (a ++ b) c
+  have h1 : isCharBoundary (src (a ++ (b ++ c))) (enc a).length = true := boundary_split a (b ++ c)
+  have h2 : isCharBoundary (src (a ++ (b ++ c))) (enc (a ++ b)).length = true := by
+    rw [← List.append_assoc]; exact boundary_split (a ++ b) c
   have h3 : (enc a).length ≤ (enc (a ++ b)).length := by simp [enc_append]
-  simp [h1, h2, h3, extract_split]
+  rw [h1, h2, extract_split]
+  simp [h3]
 
+/-- `&input[start..ptr]` -/
 theorem strIndex_split (a b c : List Char) :
-    strIndex (src (a ++ b ++ c)) (enc a).length (enc (a ++ b)).length = .done (enc b) := by
-  simp [strIndex, strGet_split]
+    strIndex (src (a ++ (b ++ c))) (enc a).length (enc (a ++ b)).length = .done (enc b) := by
+  unfold strIndex
+  rw [strGet_split]
 
 /-! ### scanning plain text -/
 
@@ -151,5 +154,641 @@ theorem enc_char_no_backslash (c : Char) (hc : c ≠ '\\') : ∀ x ∈ String.ut
       rw [e] at this
       simp at this
   · exact byte_ne_backslash_of_cont (htl x hx)
+
+/-! ### the boundary-skip loop -/
+
+theorem dropBytes_suffix (cs : List Char) : ∀ k, ∃ t, cs = t ++ dropBytes k cs := by
+  induction cs with
+  | nil => intro k; exact ⟨[], by cases k <;> simp [dropBytes]⟩
+  | cons c cs ih =>
+    intro k
+    cases k with
+    | zero => exact ⟨[], by simp [dropBytes]⟩
+    | succ k =>
+      obtain ⟨t, ht⟩ := ih (k + 1 - c.utf8Size)
+      refine ⟨c :: t, ?_⟩
+      simp only [dropBytes, List.cons_append]
+      rw [← ht]
+
+theorem skip_at_boundary (S : Src) (fuel p : Nat) (h : isCharBoundary S p = true) :
+    skipToBoundary S (fuel + 1) p = .done p := by
+  simp [skipToBoundary, h]
+
+theorem skip_past_end (S : Src) (fuel p : Nat) (h : S.size ≤ p) :
+    skipToBoundary S (fuel + 1) p = .done p := by
+  have : ¬ p < S.size := by omega
+  simp [skipToBoundary, this]
+
+/-- from inside a character the skip loop stops exactly at the end of that character -/
+theorem skip_inside (a : List Char) (c : Char) (b : List Char) (d : Nat) : ∀ (j fuel : Nat),
+    0 < j → j + d = c.utf8Size → d + 1 ≤ fuel →
+    skipToBoundary (src (a ++ c :: b)) fuel ((enc a).length + j) = .done ((enc a).length + c.utf8Size) := by
+  induction d with
+  | zero =>
+    intro j fuel _ hj hf
+    obtain ⟨f, rfl⟩ : ∃ f, fuel = f + 1 := ⟨fuel - 1, by omega⟩
+    have hb : isCharBoundary (src (a ++ c :: b)) ((enc a).length + j) = true := by
+      have := boundary_split (a ++ [c]) b
+      simp only [List.append_assoc, List.singleton_append] at this
+      rw [enc_append, enc_singleton, List.length_append, String.length_utf8EncodeChar] at this
+      have e : j = c.utf8Size := by omega
+      rw [e]; exact this
+    rw [skip_at_boundary _ _ _ hb]
+    congr 2
+  | succ d ih =>
+    intro j fuel hj0 hj hf
+    obtain ⟨f, rfl⟩ : ∃ f, fuel = f + 1 := ⟨fuel - 1, by omega⟩
+    have hnb := not_boundary_inside a c b j hj0 (by omega)
+    have hlt : (enc a).length + j < (src (a ++ c :: b)).size := by
+      simp [enc_append, enc_cons]; omega
+    rw [skipToBoundary]
+    simp only [hlt, hnb, decide_true, Bool.not_false, Bool.and_self, ↓reduceIte]
+    have := ih (j + 1) f (by omega) (by omega) (by omega)
+    rw [← this]; congr 1
+
+theorem skip_spec (cs : List Char) : ∀ (a : List Char) (k fuel : Nat),
+    (enc (a ++ cs)).length + 1 ≤ fuel →
+    ∃ p, skipToBoundary (src (a ++ cs)) fuel ((enc a).length + k) = .done p ∧
+      (p + (enc (dropBytes k cs)).length = (enc (a ++ cs)).length ∨
+        (dropBytes k cs = [] ∧ (enc (a ++ cs)).length ≤ p)) := by
+  induction cs with
+  | nil =>
+    intro a k fuel hf
+    obtain ⟨f, rfl⟩ : ∃ f, fuel = f + 1 := ⟨fuel - 1, by omega⟩
+    refine ⟨(enc a).length + k, skip_past_end _ _ _ (by simp), Or.inr ⟨by cases k <;> rfl, by simp⟩⟩
+  | cons c cs ih =>
+    intro a k fuel hf
+    cases k with
+    | zero =>
+      obtain ⟨f, rfl⟩ : ∃ f, fuel = f + 1 := ⟨fuel - 1, by omega⟩
+      refine ⟨(enc a).length, ?_, Or.inl ?_⟩
+      · exact skip_at_boundary _ _ _ (boundary_split a (c :: cs))
+      · simp [dropBytes, enc_append]
+    | succ k =>
+      by_cases hk : c.utf8Size ≤ k + 1
+      · have e1 : a ++ c :: cs = (a ++ [c]) ++ cs := by simp
+        have e2 : (enc a).length + (k + 1) = (enc (a ++ [c])).length + (k + 1 - c.utf8Size) := by
+          rw [enc_append, enc_singleton, List.length_append, String.length_utf8EncodeChar]; omega
+        have := ih (a ++ [c]) (k + 1 - c.utf8Size) fuel (by rw [← e1]; exact hf)
+        rw [← e1, ← e2] at this
+        simpa [dropBytes] using this
+      · have hpos := c.utf8Size_pos
+        have hd : dropBytes (k + 1) (c :: cs) = cs := by
+          have : k + 1 - c.utf8Size = 0 := by omega
+          simp [dropBytes, this]
+        have hlen : (enc (a ++ c :: cs)).length = (enc a).length + c.utf8Size + (enc cs).length := by
+          simp [enc_append, enc_cons]; omega
+        refine ⟨(enc a).length + c.utf8Size, ?_, Or.inl ?_⟩
+        · exact skip_inside a c cs (c.utf8Size - (k + 1)) (k + 1) fuel (by omega) (by omega) (by rw [hlen] at hf; omega)
+        · rw [hd, hlen]
+
+/-! ### hex digits: characters (specification) against bytes (model) -/
+
+def toByte (c : Char) : UInt8 := UInt8.ofNat c.toNat
+
+theorem char_le_iff (a b : Char) : a ≤ b ↔ a.toNat ≤ b.toNat := by
+  rw [Char.le_def, UInt32.le_iff_toNat_le]; rfl
+
+theorem isHex_iff (c : Char) : isHex c = true ↔
+    (48 ≤ c.toNat ∧ c.toNat ≤ 57) ∨ (97 ≤ c.toNat ∧ c.toNat ≤ 102) ∨ (65 ≤ c.toNat ∧ c.toNat ≤ 70) := by
+  simp [isHex, char_le_iff, or_assoc]
+
+theorem enc_ascii (c : Char) (h : c.toNat < 128) : String.utf8EncodeChar c = [toByte c] := by
+  obtain ⟨b0, tl, he, -, -, hascii, -⟩ := enc_shape c
+  obtain ⟨h1, h2⟩ := hascii h
+  rw [he, h1, h2]; rfl
+
+theorem utf8Size_ascii (c : Char) (h : c.toNat < 128) : c.utf8Size = 1 := by
+  rw [← String.length_utf8EncodeChar, enc_ascii c h]; rfl
+
+theorem toByte_toNat (c : Char) (h : c.toNat < 128) : (toByte c).toNat = c.toNat := by
+  simp [toByte]; omega
+
+theorem isAsciiHexDigit_iff (b : UInt8) : isAsciiHexDigit b = true ↔
+    (48 ≤ b.toNat ∧ b.toNat ≤ 57) ∨ (65 ≤ b.toNat ∧ b.toNat ≤ 70) ∨ (97 ≤ b.toNat ∧ b.toNat ≤ 102) := by
+  simp [isAsciiHexDigit, UInt8.le_iff_toNat_le, or_assoc]
+
+theorem isAsciiHexDigit_toByte (c : Char) (h : isHex c = true) : isAsciiHexDigit (toByte c) = true := by
+  have h' := (isHex_iff c).1 h
+  rw [isAsciiHexDigit_iff, toByte_toNat c (by omega)]
+  omega
+
+theorem hexDigitValue_toByte (c : Char) (h : isHex c = true) : hexDigitValue (toByte c) = some (digitVal c) := by
+  have h' := (isHex_iff c).1 h
+  have hb := toByte_toNat c (by omega)
+  unfold hexDigitValue digitVal
+  simp only [UInt8.le_iff_toNat_le, char_le_iff, hb, Bool.and_eq_true, decide_eq_true_eq]
+  simp only [show (48 : UInt8).toNat = 48 from rfl, show (57 : UInt8).toNat = 57 from rfl,
+    show (65 : UInt8).toNat = 65 from rfl, show (70 : UInt8).toNat = 70 from rfl,
+    show (97 : UInt8).toNat = 97 from rfl, show (102 : UInt8).toNat = 102 from rfl,
+    show ('0' : Char).toNat = 48 from rfl, show ('9' : Char).toNat = 57 from rfl,
+    show ('a' : Char).toNat = 97 from rfl, show ('f' : Char).toNat = 102 from rfl]
+  repeat' split
+  all_goals first | rfl | omega
+
+theorem digitVal_lt (c : Char) (h : isHex c = true) : digitVal c < 16 := by
+  have h' := (isHex_iff c).1 h
+  unfold digitVal
+  simp only [char_le_iff, Bool.and_eq_true, decide_eq_true_eq,
+    show ('0' : Char).toNat = 48 from rfl, show ('9' : Char).toNat = 57 from rfl,
+    show ('a' : Char).toNat = 97 from rfl, show ('f' : Char).toNat = 102 from rfl]
+  split
+  · omega
+  · split <;> omega
+
+/-- the encoding of hex-digit characters is one byte per character -/
+theorem enc_hex (w : List Char) (h : w.all isHex = true) : enc w = w.map toByte := by
+  induction w with
+  | nil => rfl
+  | cons c w ih =>
+    simp only [List.all_cons, Bool.and_eq_true] at h
+    have h' := (isHex_iff c).1 h.1
+    rw [enc_cons, enc_ascii c (by omega), ih h.2]; rfl
+
+/-- if the first `n` bytes are ASCII hex digits, they are `n` hex-digit characters -/
+theorem hex_bytes_chars : ∀ (n : Nat) (r : List Char), n ≤ (enc r).length →
+    ((enc r).take n).all isAsciiHexDigit = true →
+    (r.take n).length = n ∧ (r.take n).all isHex = true := by
+  intro n
+  induction n with
+  | zero => intro r _ _; simp
+  | succ n ih =>
+    intro r hn hall
+    cases r with
+    | nil => simp at hn
+    | cons c r =>
+      obtain ⟨b0, tl, he, -, -, hascii, hhi⟩ := enc_shape c
+      rw [enc_cons, he] at hall hn
+      simp only [List.cons_append, List.take_succ_cons, List.all_cons, Bool.and_eq_true] at hall
+      have hb0 := (isAsciiHexDigit_iff b0).1 hall.1
+      have hc : c.toNat < 128 := by
+        rcases Nat.lt_or_ge c.toNat 128 with h | h
+        · exact h
+        · have := hhi h; omega
+      obtain ⟨htl, hb⟩ := hascii hc
+      subst htl
+      have hcb : b0.toNat = c.toNat := by rw [hb]; exact toByte_toNat c hc
+      have hcx : isHex c = true := by rw [isHex_iff]; omega
+      simp only [List.nil_append] at hall hn
+      have := ih r (by simp at hn; omega) hall.2
+      simp [List.take_succ_cons, this.1, this.2, hcx]
+
+theorem radix16_hex (w : List Char) : ∀ (acc m : Nat), w.all isHex = true → acc < 16 ^ m → m + w.length ≤ 8 →
+    radix16Digits (w.map toByte) acc = some (w.foldl (fun a c => a * 16 + digitVal c) acc) := by
+  induction w with
+  | nil => intros; rfl
+  | cons c w ih =>
+    intro acc m h hacc hm
+    simp only [List.all_cons, Bool.and_eq_true] at h
+    have hv := digitVal_lt c h.1
+    have hp : 16 ^ (m + 1) = 16 ^ m * 16 := by rw [Nat.pow_succ]
+    have hle : 16 ^ (m + 1) ≤ 16 ^ 8 := Nat.pow_le_pow_right (by decide) (by simp at hm; omega)
+    have h8 : 16 ^ 8 = 4294967296 := by decide
+    have hnew : acc * 16 + digitVal c < 16 ^ (m + 1) := by omega
+    simp only [List.map_cons, radix16Digits, hexDigitValue_toByte c h.1, List.foldl_cons]
+    rw [if_pos (by omega)]
+    exact ih _ (m + 1) h.2 hnew (by simp at hm ⊢; omega)
+
+theorem fromStrRadix16_hex (w : List Char) (h : w.all isHex = true) (hne : w ≠ []) (hlen : w.length ≤ 8) :
+    fromStrRadix16 (w.map toByte) = some (hexNum w) := by
+  cases w with
+  | nil => exact absurd rfl hne
+  | cons c w =>
+    have hc : isHex c = true := by simp only [List.all_cons, Bool.and_eq_true] at h; exact h.1
+    have h' := (isHex_iff c).1 hc
+    have hb := toByte_toNat c (by omega)
+    have hne43 : toByte c ≠ 43 := by
+      intro e; rw [e] at hb; simp at hb; omega
+    have : fromStrRadix16 (List.map toByte (c :: w)) = radix16Digits (List.map toByte (c :: w)) 0 := by
+      simp only [List.map_cons]
+      unfold fromStrRadix16
+      split
+      · rename_i heq; cases heq
+      · rename_i heq; simp only [List.cons.injEq] at heq; exact absurd heq.1 hne43
+      · rename_i heq; simp only [List.cons.injEq] at heq; exact absurd heq.1 hne43
+      · rfl
+    rw [this]
+    exact radix16_hex (c :: w) 0 0 h (by simp) (by simpa using hlen)
+
+theorem unknownChar_eq : unknownChar = FFFD := by decide
+
+theorem charFromU32_scalarOr (n : Nat) :
+    (match charFromU32 n with | some c => c | none => unknownChar) = scalarOr n := by
+  unfold charFromU32 scalarOr
+  by_cases h : n < 0xD800 ∨ (0xDFFF < n ∧ n < 0x110000)
+  · have : (decide (n < 0xD800) || (decide (0xDFFF < n) && decide (n < 0x110000))) = true := by
+      simpa using h
+    rw [if_pos this, if_pos h]
+  · have : ¬ (decide (n < 0xD800) || (decide (0xDFFF < n) && decide (n < 0x110000))) = true := by
+      simpa using h
+    rw [if_neg this, if_neg h]; exact unknownChar_eq
+
+theorem boundary_le_size (S : Src) (i : Nat) (h : isCharBoundary S i = true) : i ≤ S.size := by
+  unfold isCharBoundary at h
+  cases hg : S[i]? with
+  | some b =>
+    have := (Array.getElem?_eq_some_iff.1 hg).1
+    omega
+  | none =>
+    rw [hg] at h
+    simp at h
+    omega
+
+/-- the hex window: `encode_unicode(input.get(seq_start..seq_start + len))` is the specification's
+`hexEscape` of the characters that follow -/
+theorem encodeUnicode_window (a r : List Char) (n : Nat) (hn0 : 0 < n) (hn8 : n ≤ 8) :
+    encodeUnicode (strGet (src (a ++ r)) (enc a).length ((enc a).length + n)) = hexEscape n r := by
+  by_cases hw : (r.take n).length = n ∧ (r.take n).all isHex = true
+  · -- well-formed: exactly n hex digits follow
+    obtain ⟨hl, hh⟩ := hw
+    have hr : r = r.take n ++ r.drop n := (List.take_append_drop n r).symm
+    have henc := enc_hex _ hh
+    have hq : (enc a).length + n = (enc (a ++ r.take n)).length := by
+      rw [enc_append, List.length_append, henc, List.length_map, hl]
+    have hg : strGet (src (a ++ r)) (enc a).length ((enc a).length + n) = some (enc (r.take n)) := by
+      rw [hq]
+      have := strGet_split a (r.take n) (r.drop n)
+      rw [List.take_append_drop] at this
+      exact this
+    have hallb : (enc (r.take n)).all isAsciiHexDigit = true := by
+      rw [henc, List.all_map]
+      rw [List.all_eq_true] at hh ⊢
+      intro c hc; exact isAsciiHexDigit_toByte c (hh c hc)
+    have hne : r.take n ≠ [] := by intro e; rw [e] at hl; simp at hl; omega
+    unfold encodeUnicode hexEscape
+    rw [hg, if_pos ⟨hl, hh⟩]
+    simp only [Option.filter_some, hallb, ↓reduceIte]
+    rw [henc, fromStrRadix16_hex _ hh hne (by omega)]
+    simp only [Option.bind_some]
+    exact charFromU32_scalarOr _
+  · -- malformed: the model's window is `None`, or contains a non-hex byte
+    have hspec : hexEscape n r = FFFD := by unfold hexEscape; rw [if_neg hw]
+    rw [hspec]
+    unfold encodeUnicode
+    cases hg : strGet (src (a ++ r)) (enc a).length ((enc a).length + n) with
+    | none => simp [unknownChar_eq]
+    | some bs =>
+      unfold strGet at hg
+      split at hg
+      · rename_i hc
+        simp only [Bool.and_eq_true] at hc
+        have hle := boundary_le_size _ _ hc.2
+        simp only [src_size, enc_append, List.length_append] at hle
+        have hbs : bs = (enc r).take n := by
+          have := Option.some.inj hg
+          rw [← this]
+          simp [src, List.extract_eq_take_drop, enc_append]
+        have hnot : bs.all isAsciiHexDigit = false := by
+          rcases hb : bs.all isAsciiHexDigit with _ | _
+          · rfl
+          · exfalso; apply hw
+            rw [hbs] at hb
+            exact hex_bytes_chars n r (by omega) hb
+        simp only [Option.filter_some, hnot, Bool.false_eq_true, ↓reduceIte]
+        exact unknownChar_eq
+      · cases hg
+
+/-! ### one escape -/
+
+theorem char_eq_of_toNat {c d : Char} (h : c.toNat = d.toNat) : c = d := by
+  apply Char.ext
+  apply UInt32.toNat_inj.1
+  exact h
+
+theorem toByte_inj {c d : Char} (hc : c.toNat < 128) (hd : d.toNat < 128) (h : toByte c = toByte d) : c = d := by
+  apply char_eq_of_toNat
+  rw [← toByte_toNat c hc, ← toByte_toNat d hd, h]
+
+theorem dropBytes_one_cons (c : Char) (r : List Char) : dropBytes 1 (c :: r) = r := by
+  have := c.utf8Size_pos
+  have e : 0 + 1 - c.utf8Size = 0 := by omega
+  show dropBytes (0 + 1 - c.utf8Size) r = r
+  rw [e]; cases r <;> rfl
+
+theorem dropBytes_size_cons (c : Char) (r : List Char) : dropBytes c.utf8Size (c :: r) = r := by
+  have := c.utf8Size_pos
+  obtain ⟨k, hk⟩ : ∃ k, c.utf8Size = k + 1 := ⟨c.utf8Size - 1, by omega⟩
+  rw [hk]
+  show dropBytes (k + 1 - c.utf8Size) r = r
+  have e : k + 1 - c.utf8Size = 0 := by omega
+  rw [e]; cases r <;> rfl
+
+/-- `escape` at the position after a backslash: the decoded character is the specification's `escChar`,
+and the cursor advance `k` drops the same characters as the specification's `escLen` once rounded up -/
+theorem escape_spec (a cs : List Char) :
+    ∃ k, escape (src (a ++ cs)) (enc a).length = (escChar cs, (enc a).length + k) ∧
+      dropBytes k cs = dropBytes (escLen cs) cs := by
+  cases cs with
+  | nil =>
+    refine ⟨1, ?_, rfl⟩
+    unfold escape
+    rw [get_split0]
+    simp [escChar, unknownChar_eq]
+  | cons c r =>
+    obtain ⟨b0, tl, he, -, -, hascii, hhi⟩ := enc_shape c
+    have hget : (src (a ++ c :: r))[(enc a).length]? = some b0 := by
+      rw [get_split0, enc_cons, he]; rfl
+    by_cases hc : c.toNat < 128
+    · have hb : b0 = toByte c := (hascii hc).2
+      by_cases h1 : c = '\\'
+      · subst h1
+        have hb' : b0 = 0x5C := by rw [hb]; rfl
+        refine ⟨1, ?_, ?_⟩
+        · unfold escape; rw [hget]; simp [hb', escChar]
+        · rfl
+      by_cases h2 : c = '"'
+      · subst h2
+        have hb' : b0 = 0x22 := by rw [hb]; rfl
+        refine ⟨1, ?_, ?_⟩
+        · unfold escape; rw [hget]; simp [hb', escChar]
+        · rfl
+      by_cases h3 : c = 'u'
+      · subst h3
+        have hb' : b0 = 0x75 := by rw [hb]; rfl
+        have hq : (enc (a ++ ['u'])).length = (enc a).length + 1 := by
+          rw [enc_append, List.length_append]; rfl
+        have hw := encodeUnicode_window (a ++ ['u']) r 4 (by omega) (by omega)
+        rw [hq] at hw
+        simp only [List.append_assoc, List.singleton_append] at hw
+        refine ⟨5, ?_, ?_⟩
+        · unfold escape; rw [hget]
+          simp only [hb']
+          simp [escChar, hw]
+        · rfl
+      by_cases h4 : c = 'U'
+      · subst h4
+        have hb' : b0 = 0x55 := by rw [hb]; rfl
+        have hq : (enc (a ++ ['U'])).length = (enc a).length + 1 := by
+          rw [enc_append, List.length_append]; rfl
+        have hw := encodeUnicode_window (a ++ ['U']) r 6 (by omega) (by omega)
+        rw [hq] at hw
+        simp only [List.append_assoc, List.singleton_append] at hw
+        refine ⟨7, ?_, ?_⟩
+        · unfold escape; rw [hget]
+          simp only [hb']
+          simp [escChar, hw]
+        · rfl
+      · have n1 : (b0 == 0x5C) = false := by
+          rw [beq_eq_false_iff_ne]; intro e; apply h1
+          exact toByte_inj hc (by decide) (by rw [← hb, e]; rfl)
+        have n2 : (b0 == 0x22) = false := by
+          rw [beq_eq_false_iff_ne]; intro e; apply h2
+          exact toByte_inj hc (by decide) (by rw [← hb, e]; rfl)
+        have n3 : (b0 == 0x75) = false := by
+          rw [beq_eq_false_iff_ne]; intro e; apply h3
+          exact toByte_inj hc (by decide) (by rw [← hb, e]; rfl)
+        have n4 : (b0 == 0x55) = false := by
+          rw [beq_eq_false_iff_ne]; intro e; apply h4
+          exact toByte_inj hc (by decide) (by rw [← hb, e]; rfl)
+        refine ⟨1, ?_, ?_⟩
+        · unfold escape; rw [hget]
+          simp [n1, n2, n3, n4, escChar, h1, h2, h3, h4, unknownChar_eq]
+        · rw [dropBytes_one_cons]
+          simp only [escLen, h3, h4, ↓reduceIte]
+          rw [dropBytes_size_cons]
+    · have hge := hhi (by omega)
+      have n1 : (b0 == 0x5C) = false := by
+        rw [beq_eq_false_iff_ne]; intro e; rw [e] at hge; simp at hge
+      have n2 : (b0 == 0x22) = false := by
+        rw [beq_eq_false_iff_ne]; intro e; rw [e] at hge; simp at hge
+      have n3 : (b0 == 0x75) = false := by
+        rw [beq_eq_false_iff_ne]; intro e; rw [e] at hge; simp at hge
+      have n4 : (b0 == 0x55) = false := by
+        rw [beq_eq_false_iff_ne]; intro e; rw [e] at hge; simp at hge
+      have h1 : c ≠ '\\' := by intro e; subst e; exact hc (by decide)
+      have h2 : c ≠ '"' := by intro e; subst e; exact hc (by decide)
+      have h3 : c ≠ 'u' := by intro e; subst e; exact hc (by decide)
+      have h4 : c ≠ 'U' := by intro e; subst e; exact hc (by decide)
+      refine ⟨1, ?_, ?_⟩
+      · unfold escape; rw [hget]
+        simp [n1, n2, n3, n4, escChar, h1, h2, h3, h4, unknownChar_eq]
+      · rw [dropBytes_one_cons]
+        simp only [escLen, h3, h4, ↓reduceIte]
+        rw [dropBytes_size_cons]
+
+/-! ### the main loop -/
+
+/-- the input contains a backslash -/
+def hasBS (cs : List Char) : Bool := cs.any (fun c => c == '\\')
+
+theorem hasBS_cons (c : Char) (cs : List Char) : hasBS (c :: cs) = (c == '\\' || hasBS cs) := by
+  simp [hasBS]
+
+theorem decode_noBS (cs : List Char) (h : hasBS cs = false) : decode cs = cs := by
+  induction cs with
+  | nil => rfl
+  | cons c cs ih =>
+    rw [hasBS_cons] at h
+    simp only [Bool.or_eq_false_iff, beq_eq_false_iff_ne, ne_eq] at h
+    rw [decode_cons_plain h.1, ih h.2]
+
+theorem loop_at_end (S : Src) (fuel st p : Nat) (out : Bytes) (h : S.size ≤ p) :
+    loop S (fuel + 1) st p out = .done (st, p, out) := by
+  have : S[p]? = none := Array.getElem?_eq_none_iff.2 h
+  rw [loop]; simp [this]
+
+theorem enc_backslash : String.utf8EncodeChar '\\' = [0x5C] := by decide
+
+theorem enc_dropBytes_le (k : Nat) (cs : List Char) : (enc (dropBytes k cs)).length ≤ (enc cs).length := by
+  obtain ⟨t, ht⟩ := dropBytes_suffix cs k
+  conv => rhs; rw [ht]
+  simp [enc_append]
+
+theorem length_dropBytes_le (k : Nat) (cs : List Char) : (dropBytes k cs).length ≤ cs.length := by
+  obtain ⟨t, ht⟩ := dropBytes_suffix cs k
+  conv => rhs; rw [ht]
+  simp
+
+theorem main_loop (n : Nat) : ∀ (pre plain rest : List Char) (out : Bytes) (fuel : Nat),
+    rest.length ≤ n → hasBS plain = false → (enc rest).length + 1 ≤ fuel →
+    finish (src (pre ++ (plain ++ rest)))
+        (loop (src (pre ++ (plain ++ rest))) fuel (enc pre).length (enc (pre ++ plain)).length out) =
+      if (enc pre).length = 0 ∧ hasBS rest = false then .done (out, false)
+      else .done (out ++ enc plain ++ enc (decode rest), true) := by
+  induction n with
+  | zero =>
+    intro pre plain rest out fuel hn hplain hfuel
+    have : rest = [] := List.eq_nil_of_length_eq_zero (by omega)
+    subst this
+    obtain ⟨f, rfl⟩ : ∃ f, fuel = f + 1 := ⟨fuel - 1, by omega⟩
+    rw [loop_at_end _ _ _ _ _ (by simp)]
+    unfold finish
+    by_cases h0 : (enc pre).length = 0
+    · simp [h0, hasBS]
+    · have hne : ((enc pre).length == 0) = false := by simpa using h0
+      simp only [hne, Bool.false_eq_true, ↓reduceIte, h0, false_and]
+      by_cases hp : (enc pre).length = (enc (pre ++ plain)).length
+      · have : enc plain = [] := by
+          rw [enc_append, List.length_append] at hp
+          exact List.eq_nil_of_length_eq_zero (by omega)
+        simp [hp, this, decode_nil]
+      · have hne2 : ((enc pre).length != (enc (pre ++ plain)).length) = true := by simpa using hp
+        rw [if_pos hne2, strIndex_split pre plain []]
+        simp [decode_nil]
+  | succ n ih =>
+    intro pre plain rest out fuel hn hplain hfuel
+    cases rest with
+    | nil => exact (by
+        obtain ⟨f, rfl⟩ : ∃ f, fuel = f + 1 := ⟨fuel - 1, by omega⟩
+        rw [loop_at_end _ _ _ _ _ (by simp)]
+        unfold finish
+        by_cases h0 : (enc pre).length = 0
+        · simp [h0, hasBS]
+        · have hne : ((enc pre).length == 0) = false := by simpa using h0
+          simp only [hne, Bool.false_eq_true, ↓reduceIte, h0, false_and]
+          by_cases hp : (enc pre).length = (enc (pre ++ plain)).length
+          · have : enc plain = [] := by
+              rw [enc_append, List.length_append] at hp
+              exact List.eq_nil_of_length_eq_zero (by omega)
+            simp [hp, this, decode_nil]
+          · have hne2 : ((enc pre).length != (enc (pre ++ plain)).length) = true := by simpa using hp
+            rw [if_pos hne2, strIndex_split pre plain []]
+            simp [decode_nil])
+    | cons c cs =>
+      by_cases hc : c = '\\'
+      · -- an escape
+        subst hc
+        obtain ⟨f, rfl⟩ : ∃ f, fuel = f + 1 := ⟨fuel - 1, by omega⟩
+        have hlenBS : (enc ('\\' :: cs)).length = 1 + (enc cs).length := by
+          rw [enc_cons, enc_backslash]; simp; omega
+        generalize hS : src (pre ++ (plain ++ '\\' :: cs)) = S
+        have hS1 : src ((pre ++ plain) ++ '\\' :: cs) = S := by rw [← hS]; simp
+        have hS2 : src ((pre ++ plain ++ ['\\']) ++ cs) = S := by rw [← hS]; simp
+        have hsize : S.size = (enc (pre ++ plain)).length + 1 + (enc cs).length := by
+          rw [← hS1, src_size, enc_append, List.length_append, hlenBS]; omega
+        have hget : S[(enc (pre ++ plain)).length]? = some 0x5C := by
+          rw [← hS1, get_split0, enc_cons, enc_backslash]; rfl
+        have hchunk : (if ((enc pre).length != (enc (pre ++ plain)).length) = true
+              then strIndex S (enc pre).length (enc (pre ++ plain)).length else Outcome.done []) =
+            Outcome.done (enc plain) := by
+          by_cases hp : (enc pre).length = (enc (pre ++ plain)).length
+          · have : enc plain = [] := by
+              rw [enc_append, List.length_append] at hp
+              exact List.eq_nil_of_length_eq_zero (by omega)
+            simp [hp, this]
+          · have hne2 : ((enc pre).length != (enc (pre ++ plain)).length) = true := by simpa using hp
+            rw [if_pos hne2, ← hS, strIndex_split pre plain ('\\' :: cs)]
+        have hq : (enc (pre ++ plain ++ ['\\'])).length = (enc (pre ++ plain)).length + 1 := by
+          rw [enc_append _ ['\\'], List.length_append, enc_singleton, enc_backslash]; rfl
+        obtain ⟨k, hesc, hdrop⟩ := escape_spec (pre ++ plain ++ ['\\']) cs
+        rw [hS2, hq] at hesc
+        obtain ⟨p', hskip, hp'⟩ := skip_spec cs (pre ++ plain ++ ['\\']) k (S.size + 1)
+          (by have := src_size (pre ++ plain ++ ['\\'] ++ cs); rw [hS2] at this; omega)
+        rw [hS2, hq] at hskip
+        rw [loop]
+        simp only [hget, bne_self_eq_false, Bool.false_eq_true, ↓reduceIte, hchunk, hesc, hskip]
+        rw [decode_backslash, ← hdrop]
+        have hnz : ¬ ((enc pre).length = 0 ∧ hasBS ('\\' :: cs) = false) := by
+          intro h; have := h.2; simp [hasBS_cons] at this
+        rw [if_neg hnz]
+        obtain ⟨t, ht⟩ := dropBytes_suffix cs k
+        generalize hd : dropBytes k cs = d at *
+        have htot : (enc (pre ++ plain ++ ['\\'] ++ cs)).length = S.size := by
+          rw [← hS2, src_size]
+        rw [htot] at hp'
+        rcases hp' with hp' | ⟨hnil, hp'⟩
+        · -- the cursor lands on the split point before `d`
+          have hpre' : (enc (pre ++ plain ++ ['\\'] ++ t)).length = p' := by
+            have : (enc (pre ++ plain ++ ['\\'] ++ cs)).length =
+                (enc (pre ++ plain ++ ['\\'] ++ t)).length + (enc d).length := by
+              conv => lhs; rw [ht]
+              rw [← List.append_assoc, enc_append _ d, List.length_append]
+            omega
+          have hS3 : src ((pre ++ plain ++ ['\\'] ++ t) ++ ([] ++ d)) = S := by
+            rw [← hS2, ht]; simp
+          have hih := ih (pre ++ plain ++ ['\\'] ++ t) [] d
+            (out ++ enc plain ++ String.utf8EncodeChar (escChar cs)) f
+            (by have := length_dropBytes_le k cs; rw [hd] at this; simp at hn; omega)
+            rfl
+            (by have := enc_dropBytes_le k cs; rw [hd] at this; rw [hlenBS] at hfuel; omega)
+          rw [hS3] at hih
+          simp only [List.append_nil] at hih
+          rw [hpre'] at hih
+          rw [hih]
+          have hp'nz : ¬ (p' = 0 ∧ hasBS d = false) := by
+            intro h
+            rw [← hpre', enc_append, enc_append _ ['\\'], enc_singleton, enc_backslash] at h
+            simp at h
+          rw [if_neg hp'nz]
+          simp [enc_cons, List.append_assoc]
+        · -- the cursor is at or past the end of the input
+          subst hnil
+          obtain ⟨f', rfl⟩ : ∃ f', f = f' + 1 := ⟨f - 1, by rw [hlenBS] at hfuel; omega⟩
+          rw [loop_at_end _ _ _ _ _ hp']
+          unfold finish
+          have hp'nz : (p' == 0) = false := by
+            rw [beq_eq_false_iff_ne]; omega
+          simp [hp'nz, decode_nil, enc_cons]
+      · -- a plain character: the cursor walks over its bytes
+        have hsz := String.length_utf8EncodeChar c
+        have hlen : (enc (c :: cs)).length = c.utf8Size + (enc cs).length := enc_length_cons c cs
+        obtain ⟨f, rfl⟩ : ∃ f, fuel = f + c.utf8Size := ⟨fuel - c.utf8Size, by omega⟩
+        generalize hS : src (pre ++ (plain ++ c :: cs)) = S
+        have hS1 : src ((pre ++ plain) ++ c :: cs) = S := by rw [← hS]; simp
+        have hS2 : src (pre ++ ((plain ++ [c]) ++ cs)) = S := by rw [← hS]; simp
+        have hscan := loop_scan S c.utf8Size (enc (pre ++ plain)).length f (enc pre).length out (by
+          intro j hj
+          rw [← hS1, get_split, enc_cons, List.getElem?_append_left (by omega)]
+          have hj' : j < (String.utf8EncodeChar c).length := by omega
+          refine ⟨(String.utf8EncodeChar c)[j], List.getElem?_eq_getElem hj', ?_⟩
+          exact enc_char_no_backslash c hc _ (List.getElem_mem hj'))
+        rw [hscan]
+        have hq : (enc (pre ++ plain)).length + c.utf8Size = (enc (pre ++ (plain ++ [c]))).length := by
+          rw [← List.append_assoc, enc_append _ [c], List.length_append, enc_singleton, hsz]
+        have hplain' : hasBS (plain ++ [c]) = false := by
+          simp only [hasBS, List.any_append, Bool.or_eq_false_iff] at hplain ⊢
+          refine ⟨hplain, ?_⟩
+          simp [hc]
+        have hih := ih pre (plain ++ [c]) cs out f (by simp at hn; omega) hplain' (by omega)
+        rw [hS2, ← hq] at hih
+        rw [hih]
+        have hbs : hasBS (c :: cs) = hasBS cs := by
+          rw [hasBS_cons]; simp [hc]
+        rw [hbs, decode_cons_plain hc]
+        simp [enc_append, enc_cons, List.append_assoc]
+
+/-! ### entry points -/
+
+/-- `unescape` on the UTF-8 of any character list: never panics, never runs out of fuel, writes the
+UTF-8 of `decode`, and answers `true` exactly when there was a backslash -/
+theorem unescape_spec (cs : List Char) :
+    unescape (src cs) = if hasBS cs = true then .done (enc (decode cs), true) else .done ([], false) := by
+  have h := main_loop cs.length [] [] cs [] ((src cs).size + 1) (Nat.le_refl _) rfl (by simp)
+  simp only [List.nil_append, enc_nil, List.length_nil, true_and] at h
+  unfold unescape
+  rw [h]
+  cases hasBS cs <;> simp
+
+theorem unescapeUnicodeToString_spec (cs : List Char) :
+    unescapeUnicodeToString (src cs) = .done (enc (decode cs), hasBS cs) := by
+  unfold unescapeUnicodeToString
+  rw [unescape_spec]
+  cases h : hasBS cs
+  · simp [src, decode_noBS cs h]
+  · simp
+
+theorem unescapeUnicode_spec (w : Bytes) (cs : List Char) :
+    unescapeUnicode w (src cs) = .done (w ++ enc (decode cs)) := by
+  unfold unescapeUnicode
+  rw [unescape_spec]
+  cases h : hasBS cs
+  · simp [src, decode_noBS cs h]
+  · simp
+
+/-- the bytes of a `String` are the encoding of its characters -/
+theorem string_bytes (s : String) : s.toUTF8.data = src s.toList := by
+  have : s.toUTF8 = s.toList.utf8Encode := by
+    conv => lhs; rw [← String.ofList_toList (s := s)]
+    exact String.toByteArray_ofList
+  rw [this]
+  simp [List.utf8Encode, src, enc]
+
+/-- every valid UTF-8 byte array is the encoding of a character list -/
+theorem validUTF8_bytes (b : ByteArray) (h : b.IsValidUTF8) : ∃ cs, b.data = src cs := by
+  obtain ⟨m, hm⟩ := h
+  exact ⟨m, by rw [hm]; simp [List.utf8Encode, src, enc]⟩
+
+theorem hasBS_iff (cs : List Char) : hasBS cs = true ↔ '\\' ∈ cs := by
+  simp [hasBS]
 
 end FluentProofs.Unescape
